@@ -24,6 +24,10 @@ theorem exec_simple_frame (f : Nat) (i : Instr) (s : St) (hs : simple i = true) 
 theorem exec_simple_susp (f : Nat) (i : Instr) (s : St) (hs : simple i = true) :
     ((exec (f + 1) i).run s).2.suspended = s.suspended := (exec_simple_eff f i s hs).susp
 
+/-- … nor the loop-record stack (the generator's). -/
+theorem exec_simple_loopstack (f : Nat) (i : Instr) (s : St) (hs : simple i = true) :
+    ((exec (f + 1) i).run s).2.loopstack = s.loopstack := (exec_simple_eff f i s hs).loopstack
+
 /-- `s₁` still stands on the stacks `s` had: nothing below the depths of `s` was touched.
 The scope stack is compared on the stack OBJECT that was current in `s` (`linAt`). -/
 structure Extends (s s₁ : St) : Prop where
